@@ -214,6 +214,11 @@ pub fn list_string(vm: &mut Vm) -> Result<VCell, Error> {
         }
         rest = vm.heap.get(&rest.as_cdr()?);
     }
+    if !rest.is_nil() {
+        return Err(InvalidSyntax(
+            "list->string requires a proper list".into(),
+        ));
+    }
     Ok(VCell::string(s))
 }
 
